@@ -298,6 +298,7 @@ func (f *Frame) unop(bi *BInfo, x *ssa.UnOp) {
 		}
 	case token.ARROW:
 		f.setVal(x, f.havocVal(x, "receive"))
+		f.blockingHook(bi)
 		if x.CommaOk {
 			et := x.X.Type().Underlying().(*types.Chan).Elem()
 			f.tuples[x] = []T{mk(g.freshConst("recv", g.sortOf(et)), g.sortOf(et), et), boolT(g.freshConst("recvok", "Bool"))}
